@@ -3,7 +3,7 @@ from vf.gen import models, recipes
 from vf.oracle import skeleton, resolve
 from vf.props import common
 
-LEVEL = 'exploration'
+LEVEL = 'translation_validation'
 RULE = ('C01 workload restricted to returns (regexes restricted to forms on which every scope encoding '
         'agrees); a unit is one returned (model, recipe) pair diffed against its source; distinct by '
         '(graph structure, exported recipe); non-trivial iff >=1 QUANTIZE/DEQUANTIZE was inserted (so '
@@ -86,4 +86,6 @@ def summarize(agg):
     inc.append('no inserted operator was ever observed')
   if st.get('boundary_rewired_output', 0) + st.get('boundary_rewired_input', 0) == 0:
     inc.append('no boundary rewiring was ever observed')
-  return {'inconclusive': inc}
+  return {'inconclusive': inc,
+          'coverage': {'programs': int(st.get('returned', 0)), 'disagreements_checked': int(st.get('boundary_tensors', 0)),
+                       'explanation': 'programs = returned models diffed against their source; disagreements_checked = boundary tensors compared'}}
